@@ -68,7 +68,7 @@ SPEC = {
           ("ConnectProof", "open_socket_all_soft", "C18_addresses_all_fail", "all fail: the last refusal is raised, every socket was prepared and closed"),
           ("ConnectProof", "open_socket_prepared", "C18_every_socket_prepared", "timeout, default and user options are applied to every socket before connect")]),
  "C19": dict(title="C19 — proxying is decided by options, environment and no_proxy exactly as documented.",
-   imports="Base.Res Base.Bytes Base.Str Base.StrMore Gen.GenHandshake Model.Url Model.Proxy Spec.Url Spec.Proxy Proofs.UrlProof",
+   imports="Base.Res Base.Bytes Base.Str Base.StrMore Base.B64 Gen.GenHandshake Model.Xport Model.Http Model.Url Model.Proxy Model.Tunnel Spec.Url Spec.Proxy Proofs.UrlProof Proofs.TunnelProof",
    items=[("UrlProof", "C19_exempt", "C19_exempt", "is_no_proxy_host = the documented exemption rule, general strings, every prefix length"),
           ("UrlProof", "C19_exempt_any_source", "C19_exempt_any_source", None),
           ("UrlProof", "C19_exempt_env", "C19_exempt_env", None),
@@ -77,7 +77,11 @@ SPEC = {
           ("UrlProof", "C19_proxied", "C19_proxied", None),
           ("UrlProof", "C19_scheme_variable", "C19_scheme_variable", "https_proxy is never used for ws"),
           ("UrlProof", "C19_scheme_variable_secure", "C19_scheme_variable_secure", "http_proxy is never used for wss"),
-          ("UrlProof", "C19_env_value_form", "C19_env_value_form", None)]),
+          ("UrlProof", "C19_env_value_form", "C19_env_value_form", None),
+          ("TunnelProof", "tunnel_only_on_200", "C19_tunnel_only_on_200", "through an HTTP proxy the client proceeds only on a 200 reply"),
+          ("TunnelProof", "tunnel_failure_is_proxy_error", "C19_tunnel_failure_is_proxy_error", None),
+          ("TunnelProof", "tunnel_first_bytes", "C19_tunnel_first_bytes", "the first transport event is the write of CONNECT host:port with Host and, when configured, Basic credentials"),
+          ("TunnelProof", "credentials_roundtrip", "C19_credentials_roundtrip", None)]),
  "C20": dict(title="C20 — cookies are replayed only to hosts inside the domain that set them.",
    imports="Base.Res Base.Bytes Base.Str Model.Cookie Spec.Cookie Proofs.CookieProof",
    items=[("CookieProof", "C20_scope", "C20_scope", "a cookie is only ever sent to a host covered by a Domain named in the response that stored it"),
